@@ -310,7 +310,7 @@ def distance(s1, s2, only_ub=False, **kwargs):
     dtw = array.array('d', [inf] * (2 * length))
     sc = 0
     ec = 0
-    for i in range(psi_2b + 1):
+    for i in range(min(psi_2b + 1, length)):
         dtw[i] = 0
     skip = 0
     i0 = 1
@@ -367,7 +367,8 @@ def distance(s1, s2, only_ub=False, **kwargs):
     else:
         ic = min(c, c + s.window - 1) - skip
         if psi_2e != 0:
-            vc = dtw[i1 * length + ic - psi_2e:i1 * length + ic + 1]
+            # The relaxation stays within the window band (the compact row starts at column skip)
+            vc = dtw[i1 * length + max(0, ic - psi_2e):i1 * length + ic + 1]
             d = min(array_min(vc), psi_shortest)
         else:
             d = min(dtw[i1 * length + min(c, c + s.window - 1) - skip], psi_shortest)
